@@ -670,7 +670,7 @@ def is_object_issubclassable(
     return _is_object_checkable(
         obj=obj,
         is_ref_proxy_valid=is_ref_proxy_valid,
-        type_tester=is_type_isinstanceable,
+        type_tester=is_type_issubclassable,
         builtin_tester=issubclass,  # type: ignore[arg-type]
         builtin_tester_pith=type,
     )
